@@ -19,6 +19,13 @@ A second generator (gen_term, section "PolyhedralTerm" below) renders the pure m
 pacti.terms.polyhedra.polyhedra.PolyhedralTerm (dicts of floats, loops, comprehensions, in-place
 updates of local copies) into gen/TermGen.v over the vocabulary of coq/base/PyDict.v;
 proofs/TermGenFacts.v proves each generated function equal to the hand model of model/Term.v.
+
+A third generator (gen_compound / gen_wrap, section "NestedTermList / IoContractCompound / wrappers") renders
+pacti/iocontract/compundiocontract.py (NestedTermList, IoContractCompound; generic in the term-list type: class
+TLDomain of coq/base/PyLoop.v) into gen/CompoundGen.v and the thin wrappers of
+pacti/contracts/polyhedral_iocontract.py:PolyhedralIoContract (rename_variables, compose[_tactics],
+quotient[_tactics], get_variable_bounds) into gen/WrapGen.v; proofs/CompoundGenNested.v, CompoundGenContract.v and
+WrapGenFacts.v prove each generated function equal to the hand models of model/Compound.v and model/PolyDomain.v.
 """
 from __future__ import annotations
 
@@ -121,6 +128,7 @@ class Fn:
         self.assumptions = assumptions
         self.selfty = {"IoContract": "C", "TermList": "TL", None: None}[cls]
         self.fields: Dict[str, str] = {}  # for __init__ / mutating methods: field -> local name
+        self.overrides: Dict[str, Tuple[str, list]] = {}  # self.m(...) resolved to a subclass override (gen_wrap)
 
     # ---- helpers
     def fresh(self, base="t"):
@@ -327,6 +335,11 @@ class Fn:
             mon, rty = C_METHODS[m]
             # fill defaults
             sig = METHOD_SIGS[("IoContract", m)]
+            callee = coqname('IoContract', m)
+            if m in self.overrides:
+                if not (isinstance(f.value, ast.Name) and f.value.id == "self"):
+                    fail(e, f"call of the overridden method {m} on an object other than self")
+                callee, sig = self.overrides[m]
             full = []
             for i, (pn, pt, pd) in enumerate(sig[1:]):
                 if i < len(parts):
@@ -340,7 +353,7 @@ class Fn:
                     full.append(self.coerce_opt(ck, tk, pt))
                 else:
                     fail(e, f"missing argument {pn}")
-            call = f"{coqname('IoContract', m)} {c0} " + " ".join(full)
+            call = f"{callee} {c0} " + " ".join(full)
             if mon:
                 tmp = self.fresh("v")
                 return pre + [(tmp, call)], tmp, rty
@@ -836,11 +849,12 @@ EMPTY_HINT = {"tactics_used": "LST", "varlist": "LV", "terms": "LT", "vars_to_ke
 METHOD_SIGS: Dict[Tuple[str, str], list] = {}
 
 
-def translate_function(cls, fdef, monadic, rtype, assumptions, implicit="") -> str:
+def translate_function(cls, fdef, monadic, rtype, assumptions, implicit="", name=None, overrides=None) -> str:
     fn = Fn(cls, fdef, monadic, rtype, assumptions)
+    fn.overrides = dict(overrides or {})
     params = fn.param_types()
     env = {n: t for n, t, _ in params}
-    name = coqname(cls, fdef.name) if cls else fdef.name
+    name = name or (coqname(cls, fdef.name) if cls else fdef.name)
     if cls == "IoContract" and fdef.name == "__init__":
         params = params[1:]
         env.pop("self")
@@ -2035,17 +2049,1345 @@ def gen_term(poly_path) -> Tuple[str, List[str]]:
     return out, sorted(set(assumptions))
 
 
+STUB = """(* TRANSLATOR-UNSUPPORTED: the current source of this module is outside the translated subset:
+   {msg}
+   The line below does not compile on purpose: every obligation that depends on this file is reported as
+   no longer checked (obligations that do not depend on it are unaffected). *)
+Translator_unsupported_construct_in_the_source_see_comment_above.
+"""
+
+
+# ================================================================ NestedTermList / IoContractCompound / wrappers
+# A third generator: gen/CompoundGen.v (pacti/iocontract/compundiocontract.py, classes NestedTermList and
+# IoContractCompound over the abstract term-list primitives of base/PyLoop.v:TLDomain) and gen/WrapGen.v (the thin
+# wrappers of pacti/contracts/polyhedral_iocontract.py:PolyhedralIoContract over the translated algebra).
+# proofs/CompoundGenNested.v, CompoundGenContract.v and WrapGenFacts.v prove every generated function EQUAL to the
+# hand model (model/Compound.v, model/PolyDomain.v).  Supported on top of the subset of the first generator:
+# * for-loops (also over enumerate(...)) with break / continue / return at any nesting depth (for_list[_m] when the
+#   body has no return, for_ret[_m] otherwise); names first bound inside a loop or a branch are local to it (a later
+#   use is an unbound name: fail closed);
+# * try: <one raising call> ; <statements that cannot raise>  except ValueError [as e]: <handler ending in
+#   continue/break/return/raise>  ->  try_bind;
+# * and/or and chained comparisons with short-circuit evaluation of raising operands; all()/any() over a generator;
+#   list and set comprehensions with conditions; tuple indexing t[0]/t[1]; Var(x) and v.name in the name model;
+# * super().m(...) and self.m(...) with the method resolution of the subclass (dynamic dispatch into overrides).
+
+class TV:
+    """type of an un-annotated empty list literal, fixed by its first typed use"""
+
+    def __init__(self):
+        self.t = None
+
+
+def rt(t):
+    return t.t if isinstance(t, TV) and t.t else t
+
+
+N_COQTY = {
+    "TL": "tlist", "LTL": "list tlist", "NTL": "list tlist", "B": "bool", "N": "nat", "V": "var", "LV": "list var",
+    "BEH": "behavior_t", "K": "kcontract", "C": "contract", "S": "string", "LS": "list string",
+    "OLS": "option (list string)", "SS": "(string * string)", "LSS": "list (string * string)",
+    "OLV": "option (list var)", "OLN": "option (list nat)", "LN": "list nat", "SETS": "list string",
+    "C*LST": "(contract * list stats)", "ONUM": "option num", "ONUM*ONUM": "(option num * option num)",
+}
+N_ELEM = {"LTL": "TL", "LV": "V", "LS": "S", "LSS": "SS", "LN": "N", "SETS": "S"}
+N_LISTOF = {"TL": "LTL", "V": "LV", "S": "LS", "SS": "LSS", "N": "LN"}
+N_VOCAB = {
+    "tlist", "behavior_t", "tl_or", "tl_is_empty", "tl_le", "tl_simplify", "tl_contains_behavior", "tl_copy",
+    "tl_vars", "kcontract", "kc_a", "kc_g", "kc_inputvars", "kc_outputvars", "contract", "c_a", "c_g", "c_inputvars",
+    "c_outputvars", "Next", "Stop", "Return", "Done", "Returned", "for_ret", "for_ret_m", "for_list", "for_list_m",
+    "Continue", "Break", "enumerate", "enumerate_from", "try_bind", "py_all", "py_any", "all_m", "any_m", "Var",
+    "var_name", "var", "ret", "raise", "bind", "py_in", "py_eqb", "negb", "true", "false", "list_union", "list_diff",
+    "list_intersection", "lists_equal", "has_dup", "nonempty", "len", "map", "filter", "fst", "snd", "tt", "unit",
+    "M", "bool", "list", "nat", "string", "option", "Some", "None", "ValueErr", "IncompatibleArgs", "inl", "inr", "num",
+    "stats", "term", "app", "nil", "cons", "is_none", "opt_list", "mmap", "step", "outcome", "ctl", "S", "O", "pair",
+}
+END_TRY = ast.Pass()     # marker: end of the statements of a try body (see NFn.tr_try)
+
+
+def n_cid(name: str) -> str:
+    import re
+    if re.match(r"^[a-z]_\d+$", name) or name.endswith("_") \
+            or name in {"self_nested_termlist", "self_a", "self_g", "self_inputvars", "self_outputvars"} \
+            or name.startswith(("NestedTermList_", "IoContractCompound_", "PolyhedralIoContract_", "IoContract_",
+                                "TermList_", "TACTICS_ORDER")):
+        raise Unsupported(f"local name {name} collides with generated names")
+    if name in COQ_KEYWORDS or name in N_VOCAB:
+        return name + "_"
+    return name
+
+
+class NCtx:
+    """what falling off the end / break / continue / return mean where a block is translated"""
+
+    def __init__(self, fall, brk=None, cont=None, ret=None):
+        self.fall, self.brk, self.cont, self.ret = fall, brk, cont, ret
+
+
+class World:
+    """the class being translated: how its objects, fields, methods and constructor are rendered"""
+
+    def __init__(self, cls, selfty, annot):
+        self.cls, self.selfty, self.annot = cls, selfty, annot
+        self.fields = {}      # (type, attr) -> (format of the read, type)
+        self.props = {}       # (type, attr) -> (format, type)            properties and pure attribute-like reads
+        self.sigs = {}        # (type, method) -> (coq name, monadic, [(param, type, default)], return type)
+        self.ctor = {}        # type -> (coq name, monadic, params, type)     type(self)(...)
+        self.supers = {}      # method -> (coq name, monadic, params, return type)   super().m(...)
+        self.consts = {}      # module constant -> (coq name, type)
+        self.init_fields = []  # __init__: [(field, type)] in record order
+        self.init_build = None  # format of the constructed value from the field locals
+
+
+class NFn:
+    """Translate one method."""
+
+    def __init__(self, world: World, fdef: ast.FunctionDef, monadic: bool, rtype: str, assumptions: List[str]):
+        self.w, self.f, self.monadic, self.rtype, self.assumptions = world, fdef, monadic, rtype, assumptions
+        self.tmp = 0
+        self.noraise = 0
+        self.fields: Dict[str, str] = {}
+        self.where = f"{world.cls}.{fdef.name}"
+
+    # ---------------------------------------------------------------- helpers
+    def fresh(self, base="t"):
+        self.tmp += 1
+        return f"{base}_{self.tmp}"
+
+    def mret(self, c):
+        return f"ret {c}" if self.monadic else c
+
+    # in-place `l.append(x)` is rendered as rebinding, which is sound only if no other name refers to the list:
+    # env["%owned"] = the local lists built by this function ([] / comprehension / list function / .copy()) that
+    # have not been given a second name, stored in an object or passed to a call since
+    @staticmethod
+    def owned(env):
+        return env.get("%owned", frozenset())
+
+    @staticmethod
+    def with_owned(env, name, flag):
+        env2 = dict(env)
+        o = set(env.get("%owned", frozenset()))
+        (o.add if flag else o.discard)(name)
+        env2["%owned"] = frozenset(o)
+        return env2
+
+    def escaped(self, env, node, keep=()):
+        """env after evaluating node: names passed to a call / stored in a tuple are no longer exclusively owned"""
+        out = env
+        for n in ast.walk(node):
+            args = []
+            if isinstance(n, ast.Call):
+                args = list(n.args) + [k.value for k in n.keywords]
+            elif isinstance(n, (ast.Tuple, ast.List, ast.Return)):
+                args = list(getattr(n, "elts", [])) + ([n.value] if isinstance(n, ast.Return) and n.value else [])
+            for a in args:
+                if isinstance(a, ast.Name) and a.id in self.owned(out) and a.id not in keep:
+                    out = self.with_owned(out, a.id, False)
+        return out
+
+    def meet_owned(self, env, envs):
+        own = self.owned(env)
+        for e2 in envs:
+            own = own & self.owned(e2)
+        env2 = dict(env)
+        env2["%owned"] = own
+        return env2
+
+    @staticmethod
+    def is_fresh_list(value):
+        if isinstance(value, ast.List) and not value.elts:
+            return True
+        if isinstance(value, ast.ListComp):
+            return True
+        if isinstance(value, ast.Call) and isinstance(value.func, ast.Name) and value.func.id in LIST_FUNS:
+            return True
+        return False
+
+    def emit_binds(self, pre, body, ind):
+        out = ""
+        for pat, m in pre:
+            if not self.monadic:
+                fail(self.f, f"operation that may raise (`{m}`) in {self.where}, which is declared pure")
+            if self.noraise:
+                fail(self.f, f"operation that may raise (`{m}`) after the guarded call inside a try body")
+            out += f"{ind}{pat} <- {m} ;;\n"
+        return out + body
+
+    def inline_m(self, pre, c):
+        if not self.monadic:
+            fail(self.f, f"operation that may raise in {self.where}, which is declared pure")
+        if self.noraise and pre:
+            fail(self.f, "operation that may raise after the guarded call inside a try body")
+        if pre and pre[-1][0] == c:
+            return "".join(f"{n} <- {m} ;; " for n, m in pre[:-1]) + pre[-1][1]
+        return "".join(f"{n} <- {m} ;; " for n, m in pre) + f"ret {c}"
+
+    def unify(self, t, want, node):
+        """make the type t (possibly an open TV) equal to want"""
+        if isinstance(t, TV) and t.t is None:
+            if want not in N_ELEM:
+                fail(node, f"empty list literal used at type {want}")
+            t.t = want
+            return True
+        return rt(t) == want
+
+    def coerce(self, c, t, want, node, what):
+        t = rt(t)
+        if isinstance(t, TV):
+            if want.startswith("O") and want[1:] in N_ELEM:
+                self.unify(t, want[1:], node)
+                return f"(Some {c})"
+            self.unify(t, want, node)
+            return c
+        if t == want or (t == "NTL" and want == "LTL") or (t == "LTL" and want == "NTL"):
+            return c
+        if want.startswith("O"):
+            if t == "NONE":
+                return "None"
+            if t == want[1:]:
+                return f"(Some {c})"
+        if (t, want) in {("OLV", "OLS"), ("LV", "LS")}:
+            self.assumptions.append(f"{self.where}: a list of Var is passed where a list of str is annotated; sound "
+                                    "in the name model because Var(v) = Var(str(v)) = v")
+            return c
+        fail(node, f"{what}: expected {want}, got {t}")
+
+    def truth(self, c, t, node):
+        t = rt(t)
+        if t == "B":
+            return c
+        if t in N_ELEM or t == "NTL":
+            return f"(nonempty {c})"
+        fail(node, f"truthiness of a value of type {t}")
+
+    # ---------------------------------------------------------------- expressions
+    def tx(self, e, env):
+        if isinstance(e, ast.Name):
+            if e.id in env and not e.id.startswith("%"):
+                return [], n_cid(e.id), env[e.id]
+            if e.id in self.w.consts:
+                return [], self.w.consts[e.id][0], self.w.consts[e.id][1]
+            fail(e, "unbound name")
+        if isinstance(e, ast.Constant):
+            if e.value is True:
+                return [], "true", "B"
+            if e.value is False:
+                return [], "false", "B"
+            if e.value is None:
+                return [], "None", "NONE"
+            if isinstance(e.value, int) and e.value >= 0:
+                return [], str(e.value), "N"
+            fail(e, "constant")
+        if isinstance(e, ast.List):
+            if e.elts:
+                fail(e, "non-empty list literal")
+            return [], "[]", TV()
+        if isinstance(e, ast.Attribute):
+            return self.tx_attr(e, env)
+        if isinstance(e, ast.Subscript):
+            p, c, t = self.tx(e.value, env)
+            if rt(t) == "SS" and isinstance(e.slice, ast.Constant) and e.slice.value in (0, 1) \
+                    and not isinstance(e.slice.value, bool):
+                return p, f"({'fst' if e.slice.value == 0 else 'snd'} {c})", "S"
+            fail(e, f"subscript on a value of type {rt(t)}")
+        if isinstance(e, ast.Call):
+            return self.tx_call(e, env)
+        if isinstance(e, ast.BinOp):
+            (p1, c1, t1), (p2, c2, t2) = self.tx(e.left, env), self.tx(e.right, env)
+            t1, t2 = rt(t1), rt(t2)
+            if t1 == t2 == "TL" and isinstance(e.op, ast.BitOr):
+                return p1 + p2, f"(tl_or {c1} {c2})", "TL"
+            if t1 == t2 == "N" and isinstance(e.op, ast.Add):
+                return p1 + p2, f"({c1} + {c2})", "N"
+            fail(e, f"binary operator on {t1},{t2}")
+        if isinstance(e, ast.UnaryOp) and isinstance(e.op, ast.Not):
+            p, c, t = self.tx(e.operand, env)
+            return p, f"(negb {self.truth(c, t, e)})", "B"
+        if isinstance(e, ast.BoolOp):
+            parts = [self.tx(v, env) for v in e.values]
+            return self.short_circuit(e, [(p, self.truth(c, t, e)) for p, c, t in parts], isinstance(e.op, ast.And))
+        if isinstance(e, ast.Compare):
+            return self.tx_compare(e, env)
+        if isinstance(e, (ast.ListComp, ast.SetComp)):
+            return self.tx_comp(e, env)
+        if isinstance(e, ast.Tuple) and isinstance(e.ctx, ast.Load):
+            parts = [self.tx(v, env) for v in e.elts]
+            pre = [b for p, _, _ in parts for b in p]
+            return pre, "(" + ", ".join(c for _, c, _ in parts) + ")", "*".join(rt(t) for _, _, t in parts)
+        fail(e, "expression form")
+
+    def short_circuit(self, node, parts, is_and):
+        """parts: [(prebinds, bool coq expr)]; operands after the first are evaluated only if needed"""
+        if not any(p for p, _ in parts[1:]):
+            op = "&&" if is_and else "||"
+            if len(parts) == 1:
+                return parts[0][0], parts[0][1], "B"
+            return parts[0][0], "(" + f" {op} ".join(c for _, c in parts) + ")", "B"
+        pn, cn = parts[-1]
+        acc = self.inline_m(pn, cn)
+        for p, c in reversed(parts[1:-1]):
+            inner = f"if {c} then ({acc}) else ret false" if is_and else f"if {c} then ret true else ({acc})"
+            if self.noraise and p:
+                fail(node, "operation that may raise after the guarded call inside a try body")
+            acc = "".join(f"{n} <- {m} ;; " for n, m in p) + inner
+        p0, c0 = parts[0]
+        tmp = self.fresh("b")
+        expr = f"(if {c0} then ({acc}) else ret false)" if is_and else f"(if {c0} then ret true else ({acc}))"
+        return p0 + [(tmp, expr)], tmp, "B"
+
+    def tx_attr(self, e, env):
+        a = e.attr
+        if isinstance(e.value, ast.Name) and e.value.id == "self" and self.f.name == "__init__":
+            if a in self.fields:
+                return [], self.fields[a], env[self.fields[a]]
+            fail(e, "reading a field of self inside __init__ before it is assigned")
+        p, c, t = self.tx(e.value, env)
+        t = rt(t)
+        for table in (self.w.fields, self.w.props):
+            if (t, a) in table:
+                fmt, ty = table[(t, a)]
+                return p, fmt.format(c), ty
+        fail(e, f"attribute {a} of type {t}")
+
+    def pair_compare(self, node, op, c1, t1, c2, t2):
+        t1, t2 = rt(t1), rt(t2)
+        if isinstance(op, (ast.In, ast.NotIn)):
+            if t2 in N_ELEM and N_ELEM[t2] == t1 and t1 in {"V", "S", "N"}:
+                r = f"(py_in {c1} {c2})"
+                return [], r if isinstance(op, ast.In) else f"(negb {r})"
+            fail(node, f"`in` on {t1},{t2}")
+        if t1 == t2 == "N":
+            r = {ast.Eq: f"(Nat.eqb {c1} {c2})", ast.NotEq: f"(negb (Nat.eqb {c1} {c2}))",
+                 ast.Gt: f"(Nat.ltb {c2} {c1})", ast.Lt: f"(Nat.ltb {c1} {c2})",
+                 ast.GtE: f"(Nat.leb {c2} {c1})", ast.LtE: f"(Nat.leb {c1} {c2})"}.get(type(op))
+            if r:
+                return [], r
+        if isinstance(op, (ast.Is, ast.IsNot)) and t2 == "NONE" and isinstance(t1, str) and t1.startswith("O"):
+            r = f"(is_none {c1})"
+            return [], r if isinstance(op, ast.Is) else f"(negb {r})"
+        if isinstance(op, (ast.Eq, ast.NotEq)) and t1 == t2:
+            neg = isinstance(op, ast.NotEq)
+            if t1 in {"V", "LV", "S", "LS", "B"}:
+                r = {"B": f"(Bool.eqb {c1} {c2})"}.get(t1, f"(py_eqb {c1} {c2})")
+                return [], f"(negb {r})" if neg else r
+            if (t1, "__eq__") in self.w.sigs:
+                name, mon, _, _ = self.w.sigs[(t1, "__eq__")]
+                tmp = self.fresh("b")
+                return [(tmp, f"{name} {c1} {c2}")], f"(negb {tmp})" if neg else tmp
+        if isinstance(op, ast.LtE) and t1 == t2:
+            if t1 == "TL":
+                tmp = self.fresh("b")
+                return [(tmp, f"tl_le {c1} {c2}")], tmp
+            if (t1, "__le__") in self.w.sigs:
+                name, mon, _, _ = self.w.sigs[(t1, "__le__")]
+                tmp = self.fresh("b")
+                return [(tmp, f"{name} {c1} {c2}")], tmp
+        fail(node, f"comparison {type(op).__name__} on {t1},{t2}")
+
+    def tx_compare(self, e, env):
+        # len(X) != len(set(X))  -- duplicate test through hashing/equality of Var
+        l, r = e.left, e.comparators[0]
+        if (len(e.ops) == 1 and isinstance(e.ops[0], ast.NotEq) and isinstance(l, ast.Call)
+                and isinstance(l.func, ast.Name) and l.func.id == "len" and isinstance(r, ast.Call)
+                and isinstance(r.func, ast.Name) and r.func.id == "len" and len(r.args) == 1
+                and isinstance(r.args[0], ast.Call) and isinstance(r.args[0].func, ast.Name)
+                and r.args[0].func.id == "set" and len(r.args[0].args) == 1 and len(l.args) == 1
+                and ast.dump(r.args[0].args[0]) == ast.dump(l.args[0])):
+            p, c, t = self.tx(l.args[0], env)
+            if rt(t) != "LV":
+                fail(e, "duplicate test on something else than a list of Var")
+            return p, f"(has_dup {c})", "B"
+        operands = [e.left] + list(e.comparators)
+        if len(operands) > 2:
+            for mid in operands[1:-1]:
+                if not isinstance(mid, ast.Name):
+                    fail(e, "chained comparison whose middle operand is not a plain name (it is evaluated once)")
+        vals = [self.tx(o, env) for o in operands]
+        if len(operands) > 2 and any(p for p, _, _ in vals):
+            fail(e, "chained comparison with raising operands")
+        parts = []
+        for i, op in enumerate(e.ops):
+            (p1, c1, t1), (p2, c2, t2) = vals[i], vals[i + 1]
+            pp, c = self.pair_compare(e, op, c1, t1, c2, t2)
+            parts.append(((p1 + p2 if i == 0 else []) + pp, c))
+        return self.short_circuit(e, parts, True)
+
+    def comp_source(self, e, env):
+        if len(e.generators) != 1:
+            fail(e, "nested comprehension")
+        g = e.generators[0]
+        if g.is_async or not isinstance(g.target, ast.Name):
+            fail(e, "comprehension target")
+        pi, ci, ti = self.tx(g.iter, env)
+        elty = N_ELEM.get(rt(ti)) or fail(e, f"comprehension over a value of type {rt(ti)}")
+        if g.target.id in env:
+            fail(e, f"comprehension variable {g.target.id} shadows a local")
+        env2 = dict(env)
+        env2[g.target.id] = elty
+        x = n_cid(g.target.id)
+        src = ci
+        for cond in g.ifs:
+            pc, cc, tc = self.tx(cond, env2)
+            if pc:
+                fail(cond, "comprehension condition that may raise")
+            src = f"(filter (fun {x} => {self.truth(cc, tc, cond)}) {src})"
+        return pi, src, rt(ti), x, elty, env2
+
+    def tx_comp(self, e, env):
+        pi, src, ti, x, elty, env2 = self.comp_source(e, env)
+        pe, ce, te = self.tx(e.elt, env2)
+        if pe:
+            fail(e, "comprehension element that may raise")
+        te = rt(te)
+        if isinstance(e, ast.SetComp):
+            if te != "S":
+                fail(e, f"set comprehension of {te}")
+            self.assumptions.append(f"{self.where}: a set of str is modelled as a list (only `in` is applied to it)")
+            rty = "SETS"
+        else:
+            rty = N_LISTOF.get(te) or fail(e, f"comprehension of {te}")
+        if ce == x:
+            return pi, src, rty if isinstance(e, ast.SetComp) else ti
+        return pi, f"(map (fun {x} => {ce}) {src})", rty
+
+    def fill_args(self, node, what, params, parts, kparts):
+        """arguments of a call in the order of the signature; evaluation order = positional then keywords"""
+        if len(parts) > len(params) or set(kparts) - {pn for pn, _, _ in params}:
+            fail(node, f"arguments of {what}")
+        full = []
+        for i, (pn, pt, pd) in enumerate(params):
+            if i < len(parts):
+                if pn in kparts:
+                    fail(node, f"argument {pn} given twice")
+                _, c, t = parts[i]
+            elif pn in kparts:
+                _, c, t = kparts[pn]
+            elif pd is not None:
+                if not (isinstance(pd, ast.Constant) and (pd.value is None or isinstance(pd.value, bool))):
+                    fail(node, f"default value of {pn}")
+                _, c, t = self.tx(pd, {})
+            else:
+                fail(node, f"missing argument {pn} of {what}")
+            full.append(self.coerce(c, t, pt, node, f"argument {pn} of {what}"))
+        return full
+
+    def do_call(self, node, entry, recv, parts, kparts, pre):
+        name, mon, params, rty = entry
+        full = self.fill_args(node, name, params, parts, kparts)
+        call = " ".join([name] + ([recv] if recv is not None else []) + full)
+        if mon:
+            tmp = self.fresh("v")
+            return pre + [(tmp, call)], tmp, rty
+        return pre, f"({call})", rty
+
+    def tx_call(self, e, env):
+        f = e.func
+        if any(k.arg is None for k in e.keywords) or any(isinstance(a, ast.Starred) for a in e.args):
+            fail(e, "*args / **kwargs")
+        if isinstance(f, ast.Name) and f.id in ("all", "any") and f.id not in env:
+            if len(e.args) != 1 or e.keywords or not isinstance(e.args[0], ast.GeneratorExp):
+                fail(e, f"{f.id}() on something else than a generator expression")
+            g = e.args[0]
+            pi, src, ti, x, elty, env2 = self.comp_source(g, env)
+            pe, ce, te = self.tx(g.elt, env2)
+            cb = self.truth(ce, te, g)
+            if pe:
+                tmp = self.fresh("b")
+                prim = "all_m" if f.id == "all" else "any_m"
+                return pi + [(tmp, f"{prim} {src} (fun {x} => {self.inline_m(pe, cb)})")], tmp, "B"
+            prim = "py_all" if f.id == "all" else "py_any"
+            return pi, f"({prim} {src} (fun {x} => {cb}))", "B"
+        parts = [self.tx(a, env) for a in e.args]
+        kparts = {k.arg: self.tx(k.value, env) for k in e.keywords}
+        pre = [b for p, _, _ in parts for b in p] + [b for p, _, _ in kparts.values() for b in p]
+        tys = [rt(t) for _, _, t in parts]
+        if isinstance(f, ast.Name):
+            if f.id in env:
+                fail(e, "call of a local")
+            if kparts:
+                fail(e, f"keyword arguments in a call of {f.id}")
+            if f.id in LIST_FUNS or f.id == "lists_equal":
+                if len(parts) != 2:
+                    fail(e, f"arguments of {f.id}")
+                t1, t2 = parts[0][2], parts[1][2]
+                if isinstance(rt(t1), TV) and not isinstance(rt(t2), TV):
+                    self.unify(t1, rt(t2), e)
+                if isinstance(rt(t2), TV) and not isinstance(rt(t1), TV):
+                    self.unify(t2, rt(t1), e)
+                if rt(t1) != rt(t2) or rt(t1) not in {"LV", "LS", "LN"}:
+                    fail(e, f"{f.id} on {rt(t1)},{rt(t2)}")
+                ty = "B" if f.id == "lists_equal" else rt(t1)
+                return pre, f"({f.id} {parts[0][1]} {parts[1][1]})", ty
+            if f.id == "len" and len(parts) == 1 and (tys[0] in N_ELEM or tys[0] == "NTL"):
+                return pre, f"(len {parts[0][1]})", "N"
+            if f.id == "Var" and len(parts) == 1 and tys[0] in {"S", "V"}:
+                c = parts[0][1] if tys[0] == "S" else f"(var_name {parts[0][1]})"
+                return pre, f"(Var {c})", "V"
+            fail(e, f"call to {f.id} on {tys}")
+        if isinstance(f, ast.Call) and isinstance(f.func, ast.Name) and f.func.id == "type" and len(f.args) == 1 \
+                and isinstance(f.args[0], ast.Name) and f.args[0].id == "self" and not f.keywords:
+            _, _, t = self.tx(f.args[0], env)
+            if rt(t) not in self.w.ctor:
+                fail(e, f"type(self)(...) for self of type {rt(t)}")
+            return self.do_call(e, self.w.ctor[rt(t)], None, parts, kparts, pre)
+        if not isinstance(f, ast.Attribute):
+            fail(e, "call form")
+        m = f.attr
+        if isinstance(f.value, ast.Call) and isinstance(f.value.func, ast.Name) and f.value.func.id == "super" \
+                and not f.value.args and not f.value.keywords:
+            if m not in self.w.supers:
+                fail(e, f"super().{m}")
+            return self.do_call(e, self.w.supers[m], "self", parts, kparts, pre)
+        if isinstance(f.value, ast.Name) and f.value.id not in env:
+            fail(e, f"call to {f.value.id}.{m}")
+        p0, c0, t0 = self.tx(f.value, env)
+        t0 = rt(t0)
+        pre = p0 + pre
+        if m == "copy" and t0 in {"LV", "LS", "LN"} and not parts and not kparts:
+            return pre, c0, t0
+        if (t0, m) in self.w.sigs:
+            return self.do_call(e, self.w.sigs[(t0, m)], c0, parts, kparts, pre)
+        fail(e, f"method {m} on a value of type {t0}")
+
+    # ---------------------------------------------------------------- statements
+    def is_dropped(self, s, env) -> bool:
+        if isinstance(s, ast.Expr):
+            v = s.value
+            if isinstance(v, ast.Constant) and isinstance(v.value, str):
+                return True
+            if isinstance(v, ast.Call) and isinstance(v.func, ast.Attribute) and isinstance(v.func.value, ast.Name) \
+                    and v.func.value.id == "logging" and v.func.attr == "debug" and "logging" not in env:
+                for a in v.args:
+                    check_message_total(a)
+                if v.keywords:
+                    fail(s, "keyword argument of logging.debug")
+                return True
+        if isinstance(s, ast.If) and not s.orelse and len(s.body) == 1 and isinstance(s.body[0], ast.Raise):
+            t = s.test
+            if isinstance(t, ast.UnaryOp) and isinstance(t.op, ast.Not) and isinstance(t.operand, ast.Call) \
+                    and ast.unparse(t.operand.func) == "isinstance" and len(t.operand.args) == 2 \
+                    and isinstance(t.operand.args[0], ast.Name) and rt(env.get(t.operand.args[0].id)) == self.w.selfty \
+                    and ast.unparse(t.operand.args[1]) == "type(self)":
+                self.assumptions.append(f"{self.where}: `isinstance({t.operand.args[0].id}, type(self))` guard dropped "
+                                        "(the model is typed)")
+                return True
+        return False
+
+    def terminates(self, stmts) -> bool:
+        if not stmts:
+            return False
+        s = stmts[-1]
+        if isinstance(s, (ast.Raise, ast.Return, ast.Break, ast.Continue)):
+            return True
+        if isinstance(s, ast.If):
+            return bool(s.orelse) and self.terminates(s.body) and self.terminates(s.orelse)
+        return False
+
+    def assigned(self, stmts) -> List[str]:
+        out: List[str] = []
+
+        def add(n):
+            if n not in out:
+                out.append(n)
+
+        def target(n):
+            if isinstance(n, ast.Name):
+                add(n.id)
+            elif isinstance(n, ast.Tuple):
+                for x in n.elts:
+                    target(x)
+            elif isinstance(n, ast.Attribute) and isinstance(n.value, ast.Name) and n.value.id == "self":
+                add("self_" + n.attr)
+            else:
+                fail(n, "assignment target")
+
+        for s in stmts:
+            if isinstance(s, ast.Assign):
+                for t in s.targets:
+                    target(t)
+            elif isinstance(s, (ast.AugAssign, ast.AnnAssign)):
+                target(s.target)
+            elif isinstance(s, ast.Expr) and isinstance(s.value, ast.Call) and isinstance(s.value.func, ast.Attribute) \
+                    and s.value.func.attr == "append":
+                target(s.value.func.value)
+            elif isinstance(s, ast.If):
+                for n in self.assigned(s.body) + self.assigned(s.orelse):
+                    add(n)
+            elif isinstance(s, ast.For):
+                for n in self.assigned(s.body):
+                    add(n)
+            elif isinstance(s, ast.Try):
+                for n in self.assigned(s.body) + [x for h in s.handlers for x in self.assigned(h.body)]:
+                    add(n)
+        return out
+
+    def block(self, stmts, env, ind, ctx: NCtx) -> str:
+        if not stmts:
+            return ctx.fall(env, ind)
+        s, rest = stmts[0], list(stmts[1:])
+        if s is END_TRY:
+            saved, self.noraise = self.noraise, 0
+            try:
+                return self.block(rest, env, ind, ctx)
+            finally:
+                self.noraise = saved
+        if self.is_dropped(s, env):
+            return self.block(rest, env, ind, ctx)
+        if isinstance(s, ast.Return):
+            if [x for x in rest if x is not END_TRY]:
+                fail(s, "statements after return")
+            if ctx.ret is None:
+                fail(s, "return inside branches that are joined")
+            if s.value is None:
+                fail(s, "bare return")
+            pre, c, t = self.tx(s.value, env)
+            c = self.coerce(c, t, self.rtype, s, "returned value")
+            return self.emit_binds(pre, ctx.ret(env, ind, c), ind)
+        if isinstance(s, ast.Raise):
+            if [x for x in rest if x is not END_TRY]:
+                fail(s, "statements after raise")
+            return self.tr_raise(s, env, ind)
+        if isinstance(s, (ast.Break, ast.Continue)):
+            if [x for x in rest if x is not END_TRY]:
+                fail(s, "statements after break/continue")
+            k = ctx.brk if isinstance(s, ast.Break) else ctx.cont
+            if k is None:
+                fail(s, "break/continue outside a loop body (or inside branches that are joined)")
+            return k(env, ind)
+        if isinstance(s, ast.AnnAssign):
+            if s.value is None:
+                fail(s, "annotated assignment without a value")
+            ann = ast.unparse(s.annotation)
+            if ann not in self.w.annot:
+                fail(s, f"unknown annotation {ann}")
+            return self.tr_assign(s.target, s.value, rest, env, ind, ctx, hint=self.w.annot[ann], node=s)
+        if isinstance(s, ast.Assign):
+            if len(s.targets) != 1:
+                fail(s, "multiple assignment targets")
+            return self.tr_assign(s.targets[0], s.value, rest, env, ind, ctx, node=s)
+        if isinstance(s, ast.Expr):
+            return self.tr_expr_stmt(s, rest, env, ind, ctx)
+        if isinstance(s, ast.If):
+            return self.tr_if(s, rest, env, ind, ctx)
+        if isinstance(s, ast.For):
+            return self.tr_for(s, rest, env, ind, ctx)
+        if isinstance(s, ast.Try):
+            return self.tr_try(s, rest, env, ind, ctx)
+        fail(s, "statement form")
+
+    def tr_raise(self, s, env, ind):
+        exc = s.exc
+        if s.cause is not None:
+            if not (isinstance(s.cause, ast.Name) and env.get(s.cause.id) == "EXC"):
+                fail(s, "raise ... from something else than the caught exception")
+            self.assumptions.append(f"{self.where}: `raise X from e` raises X; the cause chain is not modelled")
+        if isinstance(exc, ast.Call) and isinstance(exc.func, ast.Name) and not exc.keywords:
+            name = exc.func.id
+            for a in exc.args:
+                check_message_total(a)
+            if exc.args:
+                self.assumptions.append(f"{self.where}: exception messages are dropped (checked to be built from total "
+                                        "operations); the exception TYPE is kept")
+        elif isinstance(exc, ast.Name):
+            name = exc.id
+        else:
+            fail(s, "raise form")
+        if name not in ERRKIND or name in env:
+            fail(s, f"exception class {name}")
+        if not self.monadic:
+            fail(s, f"raise in {self.where}, which is declared pure")
+        if self.noraise:
+            fail(s, "raise after the guarded call inside a try body (it would be caught by the handler)")
+        return f"{ind}raise {ERRKIND[name]}"
+
+    def bind_value(self, name, pre, c, ind):
+        if pre and pre[-1][0] == c:
+            return self.emit_binds(pre[:-1], "", ind) + self.emit_binds([(name, pre[-1][1])], "", ind)
+        return self.emit_binds(pre, f"{ind}let {name} := {c} in\n", ind)
+
+    def tr_assign(self, tgt, value, rest, env, ind, ctx, hint=None, node=None):
+        pre, c, t = self.tx(value, env)
+        if hint is not None:
+            if isinstance(rt(t), TV):
+                self.unify(t, hint, node)
+            elif rt(t) != hint:
+                fail(node, f"annotation {hint} vs inferred {rt(t)}")
+        if rt(t) == "NONE":
+            fail(node, "assignment of None")
+        env2 = dict(env)
+        if isinstance(tgt, ast.Name):
+            if tgt.id == "self" or tgt.id in self.w.consts:
+                fail(node, f"assignment to {tgt.id}")
+            if tgt.id in env and not isinstance(rt(env[tgt.id]), TV) and not isinstance(rt(t), TV) \
+                    and rt(env[tgt.id]) != rt(t):
+                fail(node, f"{tgt.id} changes type from {rt(env[tgt.id])} to {rt(t)}")
+            if tgt.id in env and isinstance(rt(t), TV) and not isinstance(rt(env[tgt.id]), TV):
+                self.unify(t, rt(env[tgt.id]), node)
+            env2[tgt.id] = t
+            env2 = self.escaped(env2, value)
+            env2 = self.with_owned(env2, tgt.id, self.is_fresh_list(value))
+            if isinstance(value, ast.Name):
+                env2 = self.with_owned(env2, value.id, False)      # a second name for the same object
+            return self.bind_value(n_cid(tgt.id), pre, c, ind) + self.block(rest, env2, ind, ctx)
+        if isinstance(tgt, ast.Attribute) and isinstance(tgt.value, ast.Name) and tgt.value.id == "self":
+            if self.f.name != "__init__":
+                fail(node, "assignment to a field of self outside __init__")
+            fld = tgt.attr
+            fty = dict(self.w.init_fields).get(fld) or fail(node, f"field {fld}")
+            if fld in self.fields:
+                fail(node, f"field {fld} assigned twice")
+            c = self.coerce(c, t, fty, node, f"field {fld}")
+            local = "self_" + fld
+            self.fields[fld] = local
+            env2[local] = fty
+            env2 = self.escaped(env2, value)
+            env2 = self.with_owned(env2, local, self.is_fresh_list(value))
+            if isinstance(value, ast.Name):
+                env2 = self.with_owned(env2, value.id, False)      # the object is now also reachable from self
+            return self.bind_value(local, pre, c, ind) + self.block(rest, env2, ind, ctx)
+        fail(node, "assignment target")
+
+    def tr_expr_stmt(self, s, rest, env, ind, ctx):
+        v = s.value
+        if isinstance(v, ast.Call) and isinstance(v.func, ast.Attribute) and v.func.attr == "append" \
+                and not v.keywords and len(v.args) == 1:
+            base = v.func.value
+            if isinstance(base, ast.Name) and base.id in env:
+                name, key = n_cid(base.id), base.id
+            elif isinstance(base, ast.Attribute) and isinstance(base.value, ast.Name) and base.value.id == "self" \
+                    and self.f.name == "__init__" and base.attr in self.fields:
+                name = key = self.fields[base.attr]
+            else:
+                fail(s, "append to something else than a local list")
+            if key not in self.owned(env):
+                fail(s, f"in-place append to `{key}`, which is not known to be a list built by this function and "
+                        "referred to by no other name (the caller's object would be mutated)")
+            pre, c, t = self.tx(v.args[0], env)
+            lt = env[key]
+            want = N_LISTOF.get(rt(t)) or fail(s, f"append of a value of type {rt(t)}")
+            if isinstance(rt(lt), TV):
+                self.unify(lt, want, s)
+            elif rt(lt) != want:
+                fail(s, f"append of {rt(t)} to {rt(lt)}")
+            self.assumptions.append(f"{self.where}: l.append(x) on a list built in the same function is rendered as "
+                                    "rebinding l := l ++ [x]")
+            return self.emit_binds(pre, f"{ind}let {name} := ({name} ++ [{c}])%list in\n", ind) \
+                + self.block(rest, self.escaped(env, v.args[0]), ind, ctx)
+        fail(s, "expression statement")
+
+    def none_default_idiom(self, s, env):
+        """`if X is None: X = E` on an optional parameter"""
+        if s.orelse or len(s.body) != 1 or not isinstance(s.body[0], ast.Assign):
+            return None
+        a = s.body[0]
+        if len(a.targets) != 1 or not isinstance(a.targets[0], ast.Name):
+            return None
+        x = a.targets[0].id
+        tx_ = rt(env.get(x))
+        if not (isinstance(tx_, str) and tx_.startswith("O")):
+            return None
+        t = s.test
+        if not (isinstance(t, ast.Compare) and isinstance(t.left, ast.Name) and t.left.id == x and len(t.ops) == 1
+                and isinstance(t.ops[0], ast.Is) and isinstance(t.comparators[0], ast.Constant)
+                and t.comparators[0].value is None):
+            return None
+        inner = tx_[1:]
+        p, c, tv = self.tx(a.value, {k: v for k, v in env.items() if k != x})
+        if p:
+            fail(s, "default value that may raise")
+        c = self.coerce(c, tv, inner, s, f"default of {x}")
+        return x, inner, f"match {n_cid(x)} with None => {c} | Some v_ => v_ end"
+
+    def tup(self, names):
+        cn = [n if n.startswith("self_") else n_cid(n) for n in names]
+        if not cn:
+            return "tt", "_", "_"
+        if len(cn) == 1:
+            return cn[0], cn[0], cn[0]
+        t = "(" + ", ".join(cn) + ")"
+        return t, "'" + t, t          # value, binder pattern, match pattern
+
+    def tr_if(self, s, rest, env, ind, ctx, pretest=None):
+        if pretest is None:
+            idiom = self.none_default_idiom(s, env)
+            if idiom:
+                x, inner, c = idiom
+                env2 = dict(env)
+                env2[x] = inner
+                return f"{ind}let {n_cid(x)} := {c} in\n" + self.block(rest, env2, ind, ctx)
+            pre, c, t = self.tx(s.test, env)
+        else:
+            pre, (c, t) = [], pretest
+        cond = self.truth(c, t, s.test)
+        env = self.escaped(env, s.test)
+        body, orelse = list(s.body), list(s.orelse)
+        tb, te = self.terminates(body), self.terminates(orelse)
+        ind2 = ind + "  "
+        real_rest = [x for x in rest if x is not END_TRY]
+        if tb and te and real_rest:
+            fail(s, "unreachable code after if")
+        if tb or te or not real_rest:
+            then_txt = self.block(body + ([] if tb else rest), env, ind2, ctx)
+            else_txt = self.block(orelse + ([] if te else rest), env, ind2, ctx)
+            return self.emit_binds(pre, f"{ind}if {cond} then\n{then_txt}\n{ind}else\n{else_txt}", ind)
+        # both branches fall through and something follows: join on the (already defined) names they assign
+        names = [n for n in self.assigned(body + orelse) if n in env]
+        val, pat, _ = self.tup(names)
+        envs = []
+
+        def fall(env2, i2):
+            envs.append(env2)
+            return f"{i2}{self.mret(val)}"
+
+        jctx = NCtx(fall)
+        ind3 = ind + "    "
+        txt = (f"{ind}  (if {cond} then\n" + self.block(body, env, ind3, jctx) + f"\n{ind}   else\n"
+               + self.block(orelse, env, ind3, jctx) + ")")
+        env3 = dict(env)
+        for n in names:
+            tys = {rt(e2[n]) for e2 in envs}
+            if len(tys) != 1 or isinstance(next(iter(tys)), TV):
+                fail(s, f"joined variable {n} has types {tys}")
+            env3[n] = tys.pop()
+        env3 = self.meet_owned(env3, envs)
+        head = f"{ind}{pat} <-\n{txt} ;;\n" if self.monadic else f"{ind}let {pat} :=\n{txt} in\n"
+        return self.emit_binds(pre, head, ind) + self.block(rest, env3, ind, ctx)
+
+    def tr_for(self, s, rest, env, ind, ctx):
+        if s.orelse:
+            fail(s, "for ... else")
+        env2 = dict(env)
+        it = s.iter
+        if isinstance(it, ast.Call) and isinstance(it.func, ast.Name) and it.func.id == "enumerate" \
+                and "enumerate" not in env and len(it.args) == 1 and not it.keywords:
+            pi, ci, ti = self.tx(it.args[0], env)
+            elty = N_ELEM.get(rt(ti)) or fail(s, f"iteration over a value of type {rt(ti)}")
+            if not (isinstance(s.target, ast.Tuple) and len(s.target.elts) == 2
+                    and all(isinstance(x, ast.Name) for x in s.target.elts)):
+                fail(s, "target of a loop over enumerate(...)")
+            targets = [x.id for x in s.target.elts]
+            env2[targets[0]], env2[targets[1]] = "N", elty
+            ci = f"(enumerate {ci})"
+            loopvars = f"'({n_cid(targets[0])}, {n_cid(targets[1])})"
+        else:
+            pi, ci, ti = self.tx(it, env)
+            elty = N_ELEM.get(rt(ti)) or fail(s, f"iteration over a value of type {rt(ti)}")
+            if not isinstance(s.target, ast.Name):
+                fail(s, "loop target")
+            targets = [s.target.id]
+            env2[s.target.id] = elty
+            loopvars = n_cid(s.target.id)
+        env, env2 = self.escaped(env, s.iter), self.escaped(env2, s.iter)
+        body_assigned = self.assigned(list(s.body))
+        if set(body_assigned) & set(targets):
+            fail(s, "loop body rebinds the loop variable")
+        for t_ in targets:
+            if t_ in env:
+                fail(s, f"loop variable {t_} shadows a local (it would stay bound after the loop)")
+        for n in ast.walk(s.iter):
+            if isinstance(n, ast.Name) and n.id in body_assigned:
+                fail(s, "loop body updates the object it iterates over")
+            if isinstance(n, ast.Attribute) and isinstance(n.value, ast.Name) and n.value.id == "self" \
+                    and "self_" + n.attr in body_assigned:
+                fail(s, "loop body updates the object it iterates over")
+        accs = [n for n in body_assigned if n in env]       # names bound first inside the body are local to it
+        val, pat, mpat = self.tup(accs)
+        has_ret = any(isinstance(n, ast.Return) for st in s.body for n in ast.walk(st))
+        if has_ret and ctx.ret is None:
+            fail(s, "return inside a loop inside branches that are joined")
+        kn, kb = ("Next", "Stop") if has_ret else ("Continue", "Break")
+        envs = []
+
+        def leave(kind):
+            def k(e3, i3):
+                envs.append(e3)
+                return f"{i3}{self.mret(f'({kind} {val})')}"
+            return k
+
+        def retk(e3, i3, c):
+            return f"{i3}{self.mret(f'(Return {c})')}"
+
+        body = self.block(list(s.body), env2, ind + "    ", NCtx(leave(kn), leave(kb), leave(kn), retk if has_ret else None))
+        for n in accs:
+            for e3 in envs:
+                if rt(e3[n]) != rt(env[n]):
+                    fail(s, f"loop variable {n} changes type")
+        env = self.meet_owned(env, envs)
+        prim = ("for_ret" if has_ret else "for_list") + ("_m" if self.monadic else "")
+        call = f"{prim} {ci} {val} (fun {pat} {loopvars} =>\n{body})"
+        if not has_ret:
+            txt = f"{ind}{pat} <- {call} ;;\n" if self.monadic else f"{ind}let {pat} := {call} in\n"
+            return self.emit_binds(pi, txt, ind) + self.block(rest, env, ind, ctx)
+        after = self.block(rest, env, ind + "    ", ctx)
+        retv = ctx.ret(env, ind + "    ", "v_")
+        arms = f"{ind}| Done {mpat} =>\n{after}\n{ind}| Returned v_ =>\n{retv}\n{ind}end"
+        if self.monadic:
+            r = self.fresh("r")
+            return self.emit_binds(pi, f"{ind}{r} <- {call} ;;\n{ind}match {r} with\n{arms}", ind)
+        return self.emit_binds(pi, f"{ind}match {call} with\n{arms}", ind)
+
+    def tr_try(self, s, rest, env, ind, ctx):
+        if s.orelse or s.finalbody or len(s.handlers) != 1 or not s.body:
+            fail(s, "try form")
+        h = s.handlers[0]
+        if not (isinstance(h.type, ast.Name) and h.type.id == "ValueError" and "ValueError" not in env):
+            fail(s, "except clause other than `except ValueError`")
+        if not self.monadic:
+            fail(s, f"try in {self.where}, which is declared pure")
+        if self.noraise:
+            fail(s, "try inside a try body")
+        if not self.terminates(list(h.body)):
+            fail(s, "the handler of a try must end in continue/break/return/raise")
+        env_h = dict(env)
+        if h.name is not None:
+            if h.name in env:
+                fail(s, f"exception name {h.name} shadows a local")
+            env_h[h.name] = "EXC"
+        first, others = s.body[0], list(s.body[1:])
+        ind2 = ind + "    "
+        self.noraise += 1
+        try:
+            if isinstance(first, ast.Assign) and len(first.targets) == 1 and isinstance(first.targets[0], ast.Name):
+                pre, c, t = self.tx_guarded(first.value, env)
+                name = first.targets[0].id
+                if name in self.w.consts or name == "self":
+                    fail(first, f"assignment to {name}")
+                env2 = dict(env)
+                env2[name] = t
+                env2 = self.with_owned(self.escaped(env2, first.value), name, False)
+                ktxt = self.block(others + [END_TRY] + rest, env2, ind2, ctx)
+                kname = n_cid(name)
+            elif isinstance(first, ast.If):
+                pre, c, t = self.tx_guarded(first.test, env)
+                ktxt = self.tr_if(first, others + [END_TRY] + rest, env, ind2, ctx, pretest=(c, t))
+                kname = c
+            else:
+                fail(first, "the first statement of a try body must be `x = <one raising call>` or `if <one raising "
+                            "call>:`")
+        finally:
+            self.noraise -= 1
+        htxt = self.block(list(h.body), env_h, ind2, ctx)
+        return f"{ind}try_bind ({pre[0][1]})\n{ind}  (fun {kname} =>\n{ktxt})\n{ind}  (\n{htxt})"
+
+    def tx_guarded(self, e, env):
+        """the one raising operation of a try body: exactly one monadic call whose result is the value"""
+        saved, self.noraise = self.noraise, 0
+        try:
+            pre, c, t = self.tx(e, env)
+        finally:
+            self.noraise = saved
+        if len(pre) != 1 or pre[0][0] != c:
+            fail(e, "a try body must start with exactly one call of an operation that may raise")
+        return pre, c, t
+
+    # ---------------------------------------------------------------- whole function
+    def end_of_function(self, env, ind):
+        if self.f.name == "__init__":
+            want = [f for f, _ in self.w.init_fields]
+            if sorted(self.fields) != sorted(want):
+                fail(self.f, f"__init__ assigns fields {sorted(self.fields)}, expected {sorted(want)}")
+            return f"{ind}{self.mret(self.w.init_build.format(**{f: 'self_' + f for f in want}))}"
+        fail(self.f, "function falls off the end (returns None)")
+
+    def translate(self, params) -> str:
+        env = {n: t for n, t, _ in params}
+        env["%owned"] = frozenset()
+        if self.f.name != "__init__":
+            env["self"] = self.w.selfty
+        return self.block(list(self.f.body), env, "  ",
+                          NCtx(self.end_of_function, None, None, lambda e, i, c: f"{i}{self.mret(c)}"))
+
+
+def n_signature(world: World, cls: str, f: ast.FunctionDef, rtype_annot: Dict[str, str]):
+    a = f.args
+    if a.vararg or a.kwarg or a.kwonlyargs or a.posonlyargs or not a.args or a.args[0].arg != "self":
+        raise Unsupported(f"signature of {cls}.{f.name}")
+    defaults = [None] * (len(a.args) - len(a.defaults)) + list(a.defaults)
+    params = []
+    for arg, d in list(zip(a.args, defaults))[1:]:
+        ann = ast.unparse(arg.annotation) if arg.annotation is not None else None
+        ty = world.selfty if ann == "object" else world.annot.get(ann)
+        if ty is None:
+            fail(arg, f"annotation {ann} of parameter {arg.arg} of {cls}.{f.name}")
+        if d is not None and not (isinstance(d, ast.Constant) and (d.value is None or isinstance(d.value, bool))):
+            fail(arg, "default value")
+        if d is not None and d.value is None and not ty.startswith("O"):
+            fail(arg, "None default of a non-optional parameter")
+        params.append((arg.arg, ty, d))
+    rann = ast.unparse(f.returns) if f.returns is not None else None
+    if f.name == "__init__":
+        if rann not in (None, "None"):
+            fail(f, "return annotation of __init__")
+        rty = world.selfty
+    else:
+        rty = rtype_annot.get(rann) or fail(f, f"return annotation {rann} of {cls}.{f.name}")
+    return params, rty
+
+
+def n_define(world: World, prefix: str, f: ast.FunctionDef, params, rty, monadic, assumptions, selfname="self") -> str:
+    fn = NFn(world, f, monadic, rty, assumptions)
+    body = fn.translate(params)
+    ps = ([] if f.name == "__init__" else [(selfname, world.selfty)]) + [(n_cid(n), t) for n, t, _ in params]
+    sig = " ".join(f"({n} : {N_COQTY[t]})" for n, t in ps)
+    rt_ = N_COQTY[rty]
+    pysig = ast.unparse(f).split("\n")
+    pysig = next(l for l in pysig if l.startswith("def "))
+    name = f"{prefix}_{N_OPNAME.get(f.name, f.name)}"
+    return f"(* {pysig} *)\nDefinition {name} {sig} : {'M (' + rt_ + ')' if monadic else rt_} :=\n{body}.\n\n"
+
+
+N_OPNAME = {"__init__": "init", "__eq__": "eq", "__le__": "le"}
+
+
+def n_class_methods(cdef, cls, translated, skipped, props=("vars",)):
+    ms = {}
+    for n in cdef.body:
+        if isinstance(n, ast.FunctionDef):
+            if n.name in ms:
+                raise Unsupported(f"{cls}.{n.name} defined twice")
+            ms[n.name] = n
+        elif isinstance(n, ast.Expr) and isinstance(n.value, ast.Constant) and isinstance(n.value.value, str):
+            continue
+        else:
+            fail(n, f"class-level statement in {cls}")
+    for name in translated:
+        if name not in ms:
+            raise Unsupported(f"{cls}.{name} missing")
+    for name, f in ms.items():
+        if name in skipped:
+            continue
+        if name not in translated:
+            raise Unsupported(f"unexpected method {cls}.{name} (neither translated nor in the skip list)")
+        decos = [ast.unparse(d) for d in f.decorator_list]
+        if decos != (["property"] if name in props else []):
+            raise Unsupported(f"decorators of {cls}.{name}: {decos}")
+        strip_doc(f)
+    return ms
+
+
+def n_imports(mod):
+    imported = {}
+    for n in mod.body:
+        if isinstance(n, ast.ImportFrom):
+            for a in n.names:
+                imported[a.asname or a.name] = f"{n.module}.{a.name}"
+        elif isinstance(n, ast.Import):
+            for a in n.names:
+                imported[a.asname or a.name] = a.name
+    return imported
+
+
+def n_no_redefinition(mod, names, classes):
+    defs = [n.name for n in mod.body if isinstance(n, (ast.FunctionDef, ast.ClassDef))]
+    for name in names:
+        if name in defs or any(isinstance(n, (ast.Assign, ast.AnnAssign, ast.AugAssign)) and any(
+                isinstance(t, ast.Name) and t.id == name
+                for t in (n.targets if isinstance(n, ast.Assign) else [n.target])) for n in mod.body):
+            raise Unsupported(f"module-level redefinition of {name}")
+    for c in classes:
+        if defs.count(c) != 1:
+            raise Unsupported(f"class {c} defined {defs.count(c)} times")
+    for n in mod.body:
+        if isinstance(n, ast.Expr) and isinstance(n.value, ast.Call) and "setattr" in ast.unparse(n.value):
+            raise Unsupported("module-level setattr")
+        if isinstance(n, (ast.Assign, ast.AugAssign, ast.AnnAssign, ast.Delete)):
+            for t in (n.targets if isinstance(n, (ast.Assign, ast.Delete)) else [n.target]):
+                if not isinstance(t, ast.Name):
+                    raise Unsupported(f"module-level statement {ast.unparse(n)[:80]}")
+
+
+NT_CLASS, KC_CLASS = "NestedTermList", "IoContractCompound"
+NT_METHODS = ["__init__", "__le__", "__eq__", "vars", "copy", "simplify", "intersect", "contains_behavior"]
+NT_MONADIC = {"__init__": True, "__le__": True, "__eq__": True, "vars": False, "copy": True, "simplify": True,
+              "intersect": True, "contains_behavior": True}
+KC_METHODS = ["__init__", "__eq__", "merge"]
+N_SKIP = ["__str__", "__repr__"]
+W_CLASS = "PolyhedralIoContract"
+W_METHODS = ["rename_variables", "compose_tactics", "compose", "quotient_tactics", "quotient", "get_variable_bounds"]
+W_SKIP = ["to_machine_dict", "to_dict", "from_strings", "from_dict", "optimize"]
+
+
+def gen_compound(path, pc_path) -> Tuple[str, List[str]]:
+    src = open(path).read()
+    mod = ast.parse(src)
+    assumptions: List[str] = []
+    imported = n_imports(mod)
+    for name, want in (("logging", "logging"), ("list_union", "pacti.utils.lists.list_union"),
+                       ("list_diff", "pacti.utils.lists.list_diff"),
+                       ("list_intersection", "pacti.utils.lists.list_intersection"),
+                       ("Var", "pacti.iocontract.iocontract.Var"),
+                       ("TermList_t", "pacti.iocontract.iocontract.TermList_t")):
+        if imported.get(name) != want:
+            raise Unsupported(f"compundiocontract.py: module-level name {name} is {imported.get(name)}, expected {want}")
+    n_no_redefinition(mod, ["logging", "list_union", "list_diff", "list_intersection", "Var", "len", "set", "list",
+                            "enumerate", "isinstance", "type", "all", "any", "ValueError"], [NT_CLASS, KC_CLASS])
+    nt_c, kc_c = class_def(mod, NT_CLASS), class_def(mod, KC_CLASS)
+    if nt_c.bases or nt_c.keywords or nt_c.decorator_list:
+        raise Unsupported(f"{NT_CLASS} is expected to be a plain class")
+    if [ast.unparse(b) for b in kc_c.bases] != ["Generic[NestedTermlist_t]"] or kc_c.keywords or kc_c.decorator_list:
+        raise Unsupported(f"{KC_CLASS} is expected to derive from Generic[NestedTermlist_t] only")
+    nm = n_class_methods(nt_c, NT_CLASS, NT_METHODS, N_SKIP)
+    km = n_class_methods(kc_c, KC_CLASS, KC_METHODS, N_SKIP)
+    # --- the subclasses used with polyhedra must not change the constructors (type(self)(...) is rendered as the
+    #     constructor of the base class)
+    pmod = ast.parse(open(pc_path).read())
+    np_c, pk_c = class_def(pmod, "NestedPolyhedra"), class_def(pmod, "PolyhedralIoContractCompound")
+    if [ast.unparse(b) for b in np_c.bases] != [NT_CLASS] or [ast.unparse(b) for b in pk_c.bases] != [KC_CLASS]:
+        raise Unsupported("bases of NestedPolyhedra / PolyhedralIoContractCompound")
+    npm = n_class_methods(np_c, "NestedPolyhedra", ["__init__"], [])
+    want_init = "super().__init__(nested_termlist, force_empty_intersection)"
+    init = npm["__init__"]
+    if [a.arg for a in init.args.args] != ["self", "nested_termlist", "force_empty_intersection"] or init.args.defaults \
+            or len(init.body) != 1 or ast.unparse(init.body[0]) != want_init:
+        raise Unsupported("NestedPolyhedra.__init__ is expected to delegate to NestedTermList.__init__ unchanged")
+    pkm = {n.name: n for n in pk_c.body if isinstance(n, ast.FunctionDef)}
+    if sorted(pkm) != ["from_strings", "to_dict"]:
+        raise Unsupported(f"PolyhedralIoContractCompound defines {sorted(pkm)}; expected only from_strings and to_dict "
+                          "(no override of the translated methods)")
+    assumptions.append("compound: type(self)(...) is the constructor of NestedTermList / IoContractCompound (checked: "
+                       "NestedPolyhedra.__init__ only delegates; PolyhedralIoContractCompound overrides nothing translated)")
+    assumptions.append(f"compound: methods NOT translated (printing): "
+                       f"{', '.join(sorted(set(N_SKIP) & (set(nm) | set(km))))} of {NT_CLASS} / {KC_CLASS}")
+    assumptions.append("compound: the term-list type is abstract (class TLDomain of base/PyLoop.v): |, is_empty, <=, "
+                       "simplify(context), contains_behavior, copy, vars are primitives; a NestedTermList object is the "
+                       "list stored in its only field nested_termlist")
+    annot = {"List[TermList_t]": "LTL", "bool": "B", "NestedTermlist_t": "NTL", "Dict[Var, numeric]": "BEH",
+             "List[Var]": "LV", "IoContractCompound_t": "K"}
+    rannot = {"bool": "B", "NestedTermlist_t": "NTL", "List[Var]": "LV", "IoContractCompound_t": "K"}
+    numeric = [n for n in mod.body if isinstance(n, ast.Assign) and len(n.targets) == 1
+               and isinstance(n.targets[0], ast.Name) and n.targets[0].id == "numeric"]
+    if len(numeric) != 1 or ast.unparse(numeric[0].value) != "Union[int, float]":
+        raise Unsupported("`numeric` is expected to be Union[int, float]")
+    prims = {
+        ("TL", "is_empty"): ("tl_is_empty", True, [], "B"),
+        ("TL", "simplify"): ("tl_simplify", True, [("context", "TL", None)], "TL"),
+        ("TL", "contains_behavior"): ("tl_contains_behavior", True, [("behavior", "BEH", None)], "B"),
+        ("TL", "copy"): ("tl_copy", False, [], "TL"),
+    }
+    cls_src = (ast.get_source_segment(src, nt_c) or "") + (ast.get_source_segment(src, kc_c) or "")
+    out = ("(* GENERATED by /verif/translator/py2coq.py from src/pacti/iocontract/compundiocontract.py — do not edit.\n"
+           f"   sha256 of the two class sources: {hashlib.sha256(cls_src.encode()).hexdigest()}\n"
+           f"   translated: {NT_CLASS}.({', '.join(NT_METHODS)}); {KC_CLASS}.({', '.join(KC_METHODS)})\n"
+           f"   NOT translated (skipped on purpose: printing only): __str__ / __repr__ of both classes\n"
+           "   vocabulary: base/PyLoop.v (loops with break/continue/return, try_bind, enumerate, the abstract term-list\n"
+           "   primitives TLDomain) and base/PyDict.v (for_list, for_list_m).  Exception messages are dropped, types kept. *)\n"
+           "From Coq Require Import List String Bool Arith.\nImport ListNotations.\n"
+           "Require Import Py ListsGen PyDict PyLoop.\nOpen Scope py_scope.\n\n"
+           "Section Compound.\nContext `{TLDomain}.\n\n")
+    # --- NestedTermList
+    w = World(NT_CLASS, "NTL", annot)
+    w.fields[("NTL", "nested_termlist")] = ("{0}", "LTL")
+    w.props[("TL", "vars")] = ("(tl_vars {0})", "LV")
+    w.sigs.update(prims)
+    w.init_fields = [("nested_termlist", "LTL")]
+    w.init_build = "{nested_termlist}"
+    for name in NT_METHODS:
+        f = nm[name]
+        params, rty = n_signature(w, NT_CLASS, f, rannot)
+        mon = NT_MONADIC[name]
+        out += n_define(w, NT_CLASS, f, params, rty, mon, assumptions)
+        coq = f"{NT_CLASS}_{N_OPNAME.get(name, name)}"
+        if name == "__init__":
+            w.ctor["NTL"] = (coq, mon, params, "NTL")
+        elif name == "vars":
+            w.props[("NTL", "vars")] = (f"({coq} {{0}})", "LV")
+        else:
+            w.sigs[("NTL", name)] = (coq, mon, params, rty)
+    # --- IoContractCompound
+    out += ("Record kcontract : Type := { kc_a : list tlist; kc_g : list tlist; kc_inputvars : list var; "
+            "kc_outputvars : list var }.\n\n")
+    wk = World(KC_CLASS, "K", annot)
+    wk.fields.update({("K", "a"): ("(kc_a {0})", "NTL"), ("K", "g"): ("(kc_g {0})", "NTL"),
+                      ("K", "inputvars"): ("(kc_inputvars {0})", "LV"), ("K", "outputvars"): ("(kc_outputvars {0})", "LV")})
+    wk.props.update(w.props)
+    wk.sigs.update(w.sigs)
+    wk.init_fields = [("a", "NTL"), ("g", "NTL"), ("inputvars", "LV"), ("outputvars", "LV")]
+    wk.init_build = "{{| kc_a := {a}; kc_g := {g}; kc_inputvars := {inputvars}; kc_outputvars := {outputvars} |}}"
+    for name in KC_METHODS:
+        f = km[name]
+        params, rty = n_signature(wk, KC_CLASS, f, rannot)
+        out += n_define(wk, KC_CLASS, f, params, rty, True, assumptions)
+        coq = f"{KC_CLASS}_{N_OPNAME.get(name, name)}"
+        if name == "__init__":
+            wk.ctor["K"] = (coq, True, params, "K")
+        else:
+            wk.sigs[("K", name)] = (coq, True, params, rty)
+    out += "End Compound.\n"
+    return out, sorted(set(assumptions))
+
+
+def gen_wrap(pc_path, io_path) -> Tuple[str, List[str]]:
+    """the thin wrappers of PolyhedralIoContract; must run after gen_algebra (METHOD_SIGS)"""
+    src = open(pc_path).read()
+    mod = ast.parse(src)
+    assumptions: List[str] = []
+    imported = n_imports(mod)
+    for name, want in (("IoContract", "pacti.iocontract.IoContract"), ("Var", "pacti.iocontract.Var")):
+        if imported.get(name) != want:
+            raise Unsupported(f"polyhedral_iocontract.py: module-level name {name} is {imported.get(name)}, expected {want}")
+    n_no_redefinition(mod, ["IoContract", "Var", "len", "set", "list", "enumerate", "isinstance", "type", "all", "any",
+                            "super", "ValueError"], [W_CLASS])
+    for n in mod.body:      # TACTICS_ORDER must be assigned once (its value is read by gen_consts)
+        pass
+    if sum(1 for n in ast.walk(mod) if isinstance(n, ast.Name) and n.id == "TACTICS_ORDER"
+           and isinstance(n.ctx, (ast.Store, ast.Del))) != 1:
+        raise Unsupported("TACTICS_ORDER is expected to be assigned exactly once")
+    if any(isinstance(n, ast.Global) for n in ast.walk(mod)):
+        raise Unsupported("global statement in polyhedral_iocontract.py")
+    cdef = class_def(mod, W_CLASS)
+    if [ast.unparse(b) for b in cdef.bases] != ["IoContract"] or cdef.keywords or cdef.decorator_list:
+        raise Unsupported(f"{W_CLASS} is expected to be a plain subclass of IoContract")
+    ms = {}
+    for n in cdef.body:
+        if isinstance(n, ast.FunctionDef):
+            if n.name in ms:
+                raise Unsupported(f"{W_CLASS}.{n.name} defined twice")
+            ms[n.name] = n
+        elif isinstance(n, ast.Expr) and isinstance(n.value, ast.Constant) and isinstance(n.value.value, str):
+            continue
+        else:
+            fail(n, f"class-level statement in {W_CLASS}")
+    for name in W_METHODS + ["optimize"]:
+        if name not in ms:
+            raise Unsupported(f"{W_CLASS}.{name} missing")
+    for name, f in ms.items():
+        if name in W_SKIP:
+            continue
+        if name not in W_METHODS:
+            raise Unsupported(f"unexpected method {W_CLASS}.{name} (neither translated nor in the skip list); an "
+                              "override of an IoContract method would change what the translated algebra means")
+        if f.decorator_list:
+            raise Unsupported(f"decorators of {W_CLASS}.{name}")
+        strip_doc(f)
+    assumptions.append(f"{W_CLASS}: methods NOT translated (string parsing / JSON / LP glue, hand-modelled in "
+                       f"model/Json.v, model/ParseAll.v, model/PolyDomain.v): {', '.join(sorted(set(W_SKIP) & set(ms)))}")
+    assumptions.append(f"{W_CLASS}: Var(x) is the identity on names (var = string; Var.__init__ stores str(x)); "
+                       "get_variable_bounds is translated over an abstract `optimize` (a section variable)")
+    # --- the base class, for super() and dynamic dispatch
+    imod = ast.parse(open(io_path).read())
+    im = {n.name: n for n in class_def(imod, "IoContract").body if isinstance(n, ast.FunctionDef)}
+    overridden = [m for m in ms if m in im]
+    for m in overridden:
+        if m in W_SKIP:
+            raise Unsupported(f"{W_CLASS}.{m} overrides an IoContract method but is in the skip list")
+    annot = {"List[Tuple[str, str]]": "LSS", "PolyhedralIoContract": "C", "Optional[List[str]]": "OLS", "bool": "B",
+             "Optional[List[int]]": "OLN", "Optional[List[Var]]": "OLV", "str": "S"}
+    rannot = {"PolyhedralIoContract": "C", "Tuple[PolyhedralIoContract, List[TacticStatistics]]": "C*LST",
+              "Tuple[Optional[numeric], Optional[numeric]]": "ONUM*ONUM", "Optional[numeric]": "ONUM"}
+    w = World(W_CLASS, "C", annot)
+    w.props.update({("C", "vars"): ("(IoContract_vars {0})", "LV"), ("V", "name"): ("(var_name {0})", "S"),
+                    ("C", "inputvars"): ("(c_inputvars {0})", "LV"), ("C", "outputvars"): ("(c_outputvars {0})", "LV")})
+    w.consts["TACTICS_ORDER"] = ("TACTICS_ORDER_polyhedral_iocontract", "LN")
+
+    def base_entry(m):
+        mon, rty = C_METHODS[m]
+        if ("IoContract", m) not in METHOD_SIGS:
+            raise Unsupported(f"signature of IoContract.{m} unknown (iocontract.py was not translated)")
+        sig = METHOD_SIGS[("IoContract", m)]
+        return (f"IoContract_{OPNAME.get(m, m)}", mon, [(pn, pt, pd) for pn, pt, pd in sig[1:]], rty)
+
+    for m in ("copy", "rename_variable"):
+        if m in overridden:
+            raise Unsupported(f"{W_CLASS} overrides {m}")
+        w.sigs[("C", m)] = base_entry(m)
+    # self.optimize(...) : abstract
+    oparams, orty = n_signature(w, W_CLASS, ms["optimize"], rannot)
+    if [(n, t) for n, t, _ in oparams] != [("expr", "S"), ("maximize", "B")] or orty != "ONUM":
+        raise Unsupported("signature of PolyhedralIoContract.optimize")
+    w.sigs[("C", "optimize")] = ("PolyhedralIoContract_optimize", True, oparams, "ONUM")
+    sha = hashlib.sha256((ast.get_source_segment(src, cdef) or "").encode()).hexdigest()
+    out = ("(* GENERATED by /verif/translator/py2coq.py from src/pacti/contracts/polyhedral_iocontract.py, class "
+           f"{W_CLASS} — do not edit.\n   sha256 of the class source: {sha}\n"
+           f"   translated: {', '.join(W_METHODS)}\n"
+           f"   NOT translated (skipped on purpose: string parsing / JSON / LP glue): {', '.join(sorted(W_SKIP))}\n"
+           "   super().m(...) is IoContract.m executed on a PolyhedralIoContract: where IoContract.m calls a method\n"
+           "   that this class overrides, IoContract.m is translated again with the override (PolyhedralIoContract_super_m). *)\n"
+           "From Coq Require Import List String Bool Arith.\nImport ListNotations.\n"
+           "Require Import Py ListsGen ConstGen AlgebraGen PyDict PyLoop.\nOpen Scope py_scope.\n\n"
+           "Section Wrap.\nContext `{Domain}.\n"
+           "(* PolyhedralIoContract.optimize is not translated (string parsing + LP); get_variable_bounds is generic in it *)\n"
+           "Context {num : Type} (PolyhedralIoContract_optimize : contract -> string -> bool -> M (option num)).\n\n")
+    own_sigs = {}
+    for name in W_METHODS:
+        params, rty = n_signature(w, W_CLASS, ms[name], rannot)
+        own_sigs[name] = (params, rty)
+    for name in W_METHODS:
+        f = ms[name]
+        params, rty = own_sigs[name]
+        # super().m(...) targets used by this method
+        for n in ast.walk(f):
+            if isinstance(n, ast.Call) and isinstance(n.func, ast.Attribute) and isinstance(n.func.value, ast.Call) \
+                    and isinstance(n.func.value.func, ast.Name) and n.func.value.func.id == "super":
+                m = n.func.attr
+                if m in w.supers:
+                    continue
+                if m not in im or m not in C_METHODS:
+                    fail(n, f"super().{m}: not a translated method of IoContract")
+                base = im[m]
+                selfcalls, foreign = set(), set()
+                for c in ast.walk(base):
+                    if isinstance(c, ast.Call) and isinstance(c.func, ast.Attribute) and c.func.attr in overridden:
+                        if isinstance(c.func.value, ast.Name) and c.func.value.id == "self":
+                            selfcalls.add(c.func.attr)
+                        elif not (isinstance(c.func.value, ast.Call) and ast.unparse(c.func.value) == "super()"):
+                            foreign.add(c.func.attr)
+                if foreign:
+                    fail(base, f"IoContract.{m} calls the overridden {sorted(foreign)} on an object other than self")
+                if not selfcalls:
+                    w.supers[m] = base_entry(m)
+                    continue
+                overrides = {}
+                for sc in sorted(selfcalls):
+                    if f"{W_CLASS}_{sc}" not in out:
+                        fail(base, f"IoContract.{m} dispatches to {W_CLASS}.{sc}, which is not generated yet")
+                    sp, _ = own_sigs[sc]
+                    overrides[sc] = (f"{W_CLASS}_{sc}", [("self", "C", None)] + list(sp))
+                    assumptions.append(f"{W_CLASS}: IoContract.{m} runs with self.{sc} resolved to the override "
+                                       f"{W_CLASS}.{sc} (dynamic dispatch); it may pass Var objects where the override "
+                                       "annotates str (Var(str(v)) = v in the name model)")
+                mon, brty = C_METHODS[m]
+                strip_doc(base)
+                cname = f"{W_CLASS}_super_{OPNAME.get(m, m)}"
+                out += (f"(* IoContract.{m} as executed on a {W_CLASS}: self.{'/'.join(sorted(selfcalls))} is the override *)\n"
+                        + translate_function("IoContract", base, mon, brty, assumptions, name=cname, overrides=overrides)
+                        + "\n")
+                be = base_entry(m)
+                w.supers[m] = (cname, be[1], be[2], be[3])
+        out += n_define(w, W_CLASS, f, params, rty, True, assumptions)
+        w.sigs[("C", name)] = (f"{W_CLASS}_{name}", True, params, rty)
+    out += "End Wrap.\n"
+    return out, sorted(set(assumptions))
+
+
 def main(repo, outdir):
+    """Each output file is generated on its own: a source outside the translated subset poisons only its own
+    output file (and so only the proof obligations that import it), never silently keeps a stale one."""
     import os
-    res = {}
-    res["ListsGen.v"] = gen_lists(f"{repo}/src/pacti/utils/lists.py")
-    alg, assumptions = gen_algebra(f"{repo}/src/pacti/iocontract/iocontract.py", f"{repo}/src/pacti/utils/errors.py")
-    res["AlgebraGen.v"] = alg
-    res["ConstGen.v"] = gen_consts(f"{repo}/src/pacti/terms/polyhedra/polyhedra.py",
-                                   f"{repo}/src/pacti/contracts/polyhedral_iocontract.py")
-    trm, term_assumptions = gen_term(f"{repo}/src/pacti/terms/polyhedra/polyhedra.py")
-    res["TermGen.v"] = trm
-    assumptions = sorted(set(assumptions) | set(term_assumptions))
+    res, failures = {}, []
+    assumptions = set()
+
+    def guard(name, thunk):
+        try:
+            out = thunk()
+        except Unsupported as ex:
+            failures.append((name, str(ex)))
+            res[name] = STUB.format(msg=str(ex).replace("*)", "* )"))
+            return
+        if isinstance(out, tuple):
+            res[name] = out[0]
+            assumptions.update(out[1])
+        else:
+            res[name] = out
+    guard("ListsGen.v", lambda: gen_lists(f"{repo}/src/pacti/utils/lists.py"))
+    guard("AlgebraGen.v", lambda: gen_algebra(f"{repo}/src/pacti/iocontract/iocontract.py", f"{repo}/src/pacti/utils/errors.py"))
+    guard("ConstGen.v", lambda: gen_consts(f"{repo}/src/pacti/terms/polyhedra/polyhedra.py",
+                                           f"{repo}/src/pacti/contracts/polyhedral_iocontract.py"))
+    guard("TermGen.v", lambda: gen_term(f"{repo}/src/pacti/terms/polyhedra/polyhedra.py"))
+    pc = f"{repo}/src/pacti/contracts/polyhedral_iocontract.py"
+    guard("CompoundGen.v", lambda: gen_compound(f"{repo}/src/pacti/iocontract/compundiocontract.py", pc))
+    # after gen_algebra: uses the signatures of the IoContract methods (METHOD_SIGS)
+    guard("WrapGen.v", lambda: gen_wrap(pc, f"{repo}/src/pacti/iocontract/iocontract.py"))
     changed = []
     for name, txt in res.items():
         p = os.path.join(outdir, name)
@@ -2054,15 +3396,13 @@ def main(repo, outdir):
             with open(p, "w") as fh:
                 fh.write(txt)
             changed.append(name)
-    return changed, assumptions
+    return changed, sorted(assumptions), failures
 
 
 if __name__ == "__main__":
-    try:
-        ch, ass = main(sys.argv[1], sys.argv[2])
-    except Unsupported as ex:
-        print(f"TRANSLATOR-UNSUPPORTED: {ex}")
-        sys.exit(3)
+    ch, ass, fails = main(sys.argv[1], sys.argv[2])
     print("changed:", ch)
+    for name, msg in fails:
+        print(f"TRANSLATOR-UNSUPPORTED[{name}]: {msg}")
     for a in ass:
         print("assumption:", a)
